@@ -10,7 +10,7 @@ from common import *
 import gen, pipeline, model, findings as F, oracle
 from props import base
 
-PROPS_MODULES = ["ShexerModel.Props.C03"]
+PROPS_MODULES = ["ShexerModel.Props.C03", "ShexerModel.Props.C03opt"]
 DEPS = ["relax_cardinality", "generalize_cardinality"]
 replay = base.replay
 
